@@ -157,6 +157,14 @@ def options_db():
         MacroSpec('osn', [A(P.LatexSingleNodeParser(stop_on_comment=False))]),
         MacroSpec('orr', [A('r()')]), MacroSpec('odd', [A('d()')]), MacroSpec('ott', [A('t!')]),
         MacroSpec('oee', [A('e{_}')]), MacroSpec('oom', [A('{'), A('[')]),
+        # the no-blank-before option for the marker and delimited argument letters as well
+        # (after a first argument: the blank after a control word belongs to the macro token)
+        MacroSpec('osns', [A('{'), A(std('*', allow_pre_space=False))]),
+        MacroSpec('otns', [A('{'), A(std('t!', allow_pre_space=False))]),
+        MacroSpec('odns', [A('{'), A(std('d()', allow_pre_space=False))]),
+        # control-symbol macros: no blank is swallowed by the macro token itself
+        MacroSpec(';', [A(std('*', allow_pre_space=False))]),
+        MacroSpec(':', [A(std('t!', allow_pre_space=False))]),
         MacroSpec('olegacy', args_parser=MacroStandardArgsParser('*[{')),
         MacroSpec('olegns', args_parser=MacroStandardArgsParser('[{', optional_arg_no_space=True)),
     ], environments=[
@@ -169,6 +177,7 @@ def options_db():
 
 OPTIONS_TOKENS = ['\\ofull', '\\onosp', '\\oonosp', '\\omark', '\\omarkb', '\\omarkg', '\\osn',
                   '\\orr', '\\odd', '\\ott', '\\oee', '\\oom', '\\olegacy', '\\olegns',
+                  '\\osns', '\\otns', '\\odns', '\\;', '\\:',
                   '\\begin{oenv}', '\\end{oenv}', '+', '-', '++', '{', '}', '[', ']', '(', ')', '!',
                   '_', 'a', ' ', '%', '\n\n', '*']
 
